@@ -1,7 +1,8 @@
 (** C13 -- Logout responses go to the registered party and succeed only if valid.
     [logout_table] is the complete decision table of logoutHandleFunc, proved by symbolic execution of the chain go2v
     extracts from logout.go for all requests, metadata and instants; the statements below are read off it. *)
-From Saml Require Import Base.Bytes Idp.FactTypes Gen.Facts Idp.Sso Idp.Logout Proofs.LogoutProofs.
+From Saml Require Import Base.Bytes Idp.FactTypes Gen.Facts Idp.Sso Idp.Logout Idp.Deliver Proofs.LogoutProofs.
+From Saml Require Import Xml.SchemaTypes Xml.Schema Gen.Schema Xml.SamlSpec.
 
 Definition reply_msg (r : lreply) : option lmsg := match r with LBody m => Some m | LPost _ _ m => Some m | LHttp _ => None end.
 Definition the_reply (o : loutcome) : option lreply := match o with LDone _ [r] => Some r | _ => None end.
@@ -83,7 +84,19 @@ Qed.
 Theorem C13_parameters_read : logout_form_keys = expected_logout_keys /\ logout_handler_keys = [].
 Proof. exact logout_keys_unchanged. Qed.
 
+(** the delivery function of the model is sendBackLogoutResponse's statement sequence: the HTTP body when no logout URL
+    is known, else the auto-submit form; there is no other way out *)
+Theorem C13_delivery_from_source : forall entity_id status s,
+  ldeliver_shape sendBackLogoutResponse_seq (is_empty (g_url s)) = Some (kind_of_lreply (lsend entity_id status s)).
+Proof. exact lsend_from_source. Qed.
+
+(** the struct tags of the current source agree with the SAML schemas where the handlers rely on them: ID, IssueInstant, NotOnOrAfter, Issuer and NameID of the LogoutRequest struct are the attributes / elements of that name in the request document; InResponseTo, Destination, Issuer and Status those of the LogoutResponse *)
+Theorem C13_schema : forallb (conforms xml_schema) saml_spec = true.
+Proof. exact saml_spec_conforms. Qed.
+
 Print Assumptions C13_success_iff.
 Print Assumptions C13_echo.
 Print Assumptions C13_target.
 Print Assumptions C13_parameters_read.
+Print Assumptions C13_delivery_from_source.
+Print Assumptions C13_schema.
